@@ -61,10 +61,32 @@ def run_prog(exe, path, specs, calls, opt=2, timeout=300):
     return [canon(j) for j in joined[:len(lines)]]
 
 
-# sites at which C01's open use-after-free of a label deleted by remove_unreachable_bbs kills the generator (reported to
-# the coordinator for KNOWN_FINDINGS.txt as gen-died:get_label_disp; once a site is listed there it goes through
-# chk.finding like every other death and this list no longer applies to it)
-C01_SITES = {'get_label_disp', 'get_bb_version', 'jump_opt'}
+# (Historical) sites at which C01's once open defect (a block kept only for its label address stays in the CFG as an island; jump_opt
+# then frees a label a kept branch still names, or meets a branch block without out edge) kills the generator at
+# -O2/-O3.  A site is exempt from reporting only WHILE a recorded witness of corpus/c03_open_O2.jsonl still dies at it
+# on the tree under test (see open_witness_sites): when the defect is cured the exemption ends by itself, and a site
+# listed in KNOWN_FINDINGS.txt always goes through chk.finding.
+C01_SITES = set()
+
+
+def open_witness_sites(chk, exe):
+    sites = set()
+    f = os.path.join(vlib.VERIF, 'corpus', 'c03_open_O2.jsonl')
+    if not os.path.exists(f):
+        return sites
+    for line in open(f):
+        line = line.strip()
+        if not line or line.startswith('#'):
+            continue
+        j = json.loads(line)
+        p = write_prog(j['text'], 'open')
+        outs = run_prog(exe, p, ['%s:%s' % (i, j['mods']) for i in ('interp', 'gen', 'lazy', 'bb')], j['calls'], j.get('opt', 2))
+        dead = set(death_site(o) for o in outs if GEN_FAILED in o)
+        chk.dist('open_witness', '%s:%s' % (j['name'], ','.join(sorted(dead)) or ('agree' if len(set(outs)) == 1 else 'differs')))
+        sites |= dead
+    return sites
+
+
 GEN_FAILED = 'CRASH:gen:'   # the generator itself died while generating (see harness/c03_prog.h): C01's subject
 
 
@@ -298,6 +320,13 @@ def run(chk):
         if outs[0] != outs[1] and 'CRASH' not in outs[0]:
             chk.finding('lazybb-far-code', dict(kind='ifaces', text=j['text'], specs=specs, calls=j['calls'], opt=j['opt'], outs=outs),
                         'lazy-BB generation with code regions > 2 GiB apart: %s' % outs[1][-160:])
+    # No site is exempt any more: the defect family the exemption was for is repaired in /repo (C01-16/18/20),
+    # its witnesses (corpus/c03_open_O2.jsonl) are replayed as ordinary regression cases, and every generator
+    # death is reported through chk.finding ('gen-died:<site>'), i.e. only KNOWN_FINDINGS.txt can list one.
+    C01_SITES.clear()
+    for site in sorted(open_witness_sites(chk, exe)):
+        chk.finding('gen-died:' + site, dict(kind='open-witness', corpus='corpus/c03_open_O2.jsonl', site=site),
+                    'a recorded -O2/-O3 witness of corpus/c03_open_O2.jsonl kills the generator again at %s' % site)
     seen_sites = set()
     for k in range(nprog):
         res, deaths = one_program(chk, exe, rng, k, quick)
